@@ -13,7 +13,7 @@ static const char *FN[] = { "none", "bitflip", "drop", "duplicate", "swap-with-n
 typedef struct { int kind, dir, idx; size_t off; int bit; } fault_t;
 static fault_t FA[2]; static int NFA;
 typedef struct { int status, cret, sret, c_done, s_done, c_data, s_data, c_bad, s_bad, nrec; struct { int dir; size_t len; uint8_t type; } rec[64]; int sec_equal; } out_t;
-static out_t *XO; static side_creds SRV[3], CLI[3];
+static out_t *XO; static side_creds SRV[3], CLI[3], CLI2[3]; /* CLI2: the client credentials with a trust store of TWO roots (the genuine one first) for the server */
 
 static int adv(vn_rec *r) { int copies = 1; for (int i = 0; i < NFA; i++) { fault_t *f = &FA[i]; if (f->dir != r->dir || f->idx != r->idx) continue; size_t pl = r->len - 5;
 	switch (f->kind) { case F_BIT: if (f->off < pl) r->rec[5 + f->off] ^= (uint8_t)(1 << f->bit); break; case F_DROP: copies = 0; break; case F_DUP: copies = 2; break; case F_SWAP: copies = -1; break;
@@ -31,7 +31,7 @@ typedef struct { ep_t e; int post; int done, got_data, got_bad; } cep_t;
 static int cep_task(void *arg) { cep_t *c = (cep_t *)arg; c->e.do_app = 0; c->e.do_close = 0; int r = ep_task(&c->e); c->done = (c->e.hs_ret == 1); if (!c->done || !c->post) return r; TLS_CONNECT *conn = c->e.conn_out;
 	ep_send(&c->e, conn, APPDATA[c->e.is_client ? 0 : 1], 17); static __thread uint8_t rb[20000]; for (int i = 0; i < 3; i++) { size_t g = 0; int rr = ep_recv(&c->e, conn, rb, sizeof rb, &g); if (rr == 1 && g > 0) { if (g <= 17 && !memcmp(rb, APPDATA[c->e.is_client ? 1 : 0], g)) c->got_data = 1; else c->got_bad = 1; break; } if (rr != 1) { /* keep trying: later records may still be delivered */ } } return r; }
 static int run_child(int proto, int mutual, int post) {
-	static cep_t c, s; memset(&c, 0, sizeof c); memset(&s, 0, sizeof s); c.e.proto = s.e.proto = proto; c.e.is_client = 1; c.e.mutual = s.e.mutual = mutual; c.e.own = &CLI[proto]; s.e.own = &SRV[proto]; c.e.trust = &SRV[proto]; s.e.trust = mutual ? &CLI[proto] : NULL; c.e.entropy_key = 0xC11E17; s.e.entropy_key = 0x5E12BE12; c.e.entropy_fail_at = s.e.entropy_fail_at = -1; c.post = s.post = post;
+	static cep_t c, s; memset(&c, 0, sizeof c); memset(&s, 0, sizeof s); c.e.proto = s.e.proto = proto; c.e.is_client = 1; c.e.mutual = s.e.mutual = (mutual != 0); c.e.own = &CLI[proto]; s.e.own = &SRV[proto]; c.e.trust = &SRV[proto]; s.e.trust = mutual == 2 ? &CLI2[proto] : mutual ? &CLI[proto] : NULL; c.e.entropy_key = 0xC11E17; s.e.entropy_key = 0x5E12BE12; c.e.entropy_fail_at = s.e.entropy_fail_at = -1; c.post = s.post = post;
 	vx_explore_env = 0; vn_adv = adv; vn_adv_after = adv_after; XO->status = vnet_run2(cep_task, &c, cep_task, &s, &XO->cret, &XO->sret); XO->c_done = c.done; XO->s_done = s.done; XO->c_data = c.got_data; XO->s_data = s.got_data; XO->c_bad = c.got_bad; XO->s_bad = s.got_bad;
 	XO->nrec = vn_nlog < 64 ? vn_nlog : 64; for (int i = 0; i < XO->nrec; i++) { XO->rec[i].dir = vn_log[i].dir; XO->rec[i].len = vn_log[i].len; XO->rec[i].type = vn_log[i].hdr[0]; }
 	XO->sec_equal = c.e.secrets_len == s.e.secrets_len && !memcmp(c.e.secrets, s.e.secrets, c.e.secrets_len); return 0; }
@@ -43,7 +43,7 @@ static const char *fdesc(void) { static char b[200]; b[0] = 0; for (int i = 0; i
 static uint64_t OUTCOMES[8];
 static int POSTHS;   /* the fault only ADDS bytes behind the last handshake record of its direction: the receiver has already completed when they arrive */
 static void judge(int proto, int mutual) {
-	char key[200]; const char *cn = mutual ? "mutual" : "serverauth"; vh_eval(vh_hash(FA, sizeof(fault_t) * NFA, proto * 2 + mutual + 1));
+	char key[200]; const char *cn = mutual == 2 ? "mutual-2cas" : mutual ? "mutual" : "serverauth"; vh_eval(vh_hash(FA, sizeof(fault_t) * NFA, proto * 2 + mutual + 1));
 	const char *kn = NFA == 2 ? "pair" : FN[FA[0].kind];
 	if (FAIL[0]) { snprintf(key, sizeof key, "C10:%s-%s:%s:%s", PNAME[proto], cn, kn, FAIL); vh_viol(key, "\"fault\":\"%s\"", fdesc()); return; }
 	if (XO->status & 2) { snprintf(key, sizeof key, "C10:%s-%s:%s:livelock", PNAME[proto], cn, kn); vh_viol(key, "\"fault\":\"%s\"", fdesc()); }
@@ -54,7 +54,7 @@ static void judge(int proto, int mutual) {
 	if (XO->c_data || XO->s_data) { snprintf(key, sizeof key, "C10:%s-%s:%s:application-data-accepted-after-tampering", PNAME[proto], cn, kn); vh_viol(key, "\"fault\":\"%s\",\"by\":\"%s\"", fdesc(), XO->c_data ? "client" : "server"); }
 }
 static void body(void) {
-	for (int p = 0; p < 3; p++) for (int m = 0; m < 2; m++) { char bn[64]; snprintf(bn, sizeof bn, "faults-%s-%s", PNAME[p], m ? "mutual" : "serverauth"); if (!vh_block_begin(bn)) continue;
+	for (int p = 0; p < 3; p++) for (int m = 0; m < 3; m++) { char bn[64]; snprintf(bn, sizeof bn, "faults-%s-%s", PNAME[p], m == 2 ? "mutual-2cas" : m ? "mutual" : "serverauth"); if (!vh_block_begin(bn)) continue;
 		/* baseline: learn the handshake records, and check non-vacuity (honest run completes, data flows) */
 		NFA = 0; run_exec(p, m, 1); out_t base = *XO; if (FAIL[0] || !base.c_done || !base.s_done || !base.c_data || !base.s_data) { if (vh_next()) vh_viol("C10:baseline-honest-run-does-not-complete", "\"proto\":\"%s\",\"mutual\":%d,\"fail\":\"%s\",\"c\":%d,\"s\":%d", PNAME[p], m, FAIL, base.c_done, base.s_done); continue; }
 		NFA = 0; run_exec(p, m, 0); base = *XO; int nrec = base.nrec; int cnt[2] = { 0, 0 }; int idxof[64]; for (int i = 0; i < nrec; i++) idxof[i] = cnt[base.rec[i].dir]++;
@@ -69,4 +69,4 @@ static void body(void) {
 	printf("STAT executions=%llu outcome_neither=%llu outcome_client_only=%llu outcome_server_only=%llu outcome_both=%llu\n", (unsigned long long)vh_evals, (unsigned long long)(OUTCOMES[0] + OUTCOMES[4]), (unsigned long long)(OUTCOMES[1] + OUTCOMES[5]), (unsigned long long)(OUTCOMES[2] + OUTCOMES[6]), (unsigned long long)(OUTCOMES[3] + OUTCOMES[7]));
 }
 int main(int argc, char **argv) { vh_init(argc, argv); app_fill(); XO = mmap(NULL, sizeof *XO, PROT_READ | PROT_WRITE, MAP_SHARED | MAP_ANONYMOUS, -1, 0);
-	for (int p = 0; p < 3; p++) if (build_side(&SRV[p], p, 0, 1, NULL) != 1 || build_side(&CLI[p], p, 1, 1, NULL) != 1) vh_harness_error("creds"); body(); return vh_finish(); }
+	for (int p = 0; p < 3; p++) if (build_side(&SRV[p], p, 0, 1, NULL) != 1 || build_side(&CLI[p], p, 1, 1, NULL) != 1) vh_harness_error("creds"); for (int p = 0; p < 3; p++) { CLI2[p] = CLI[p]; cert_spec r2; spec_ca(&r2, "X", -1); size_t n = 0; if (make_cert(&r2, &CK[9], &CK[9], "X", CLI2[p].cacerts + CLI2[p].cacertslen, &n) != 1) vh_harness_error("second root"); CLI2[p].cacertslen += n; } body(); return vh_finish(); }
